@@ -209,6 +209,7 @@ def check(R, F, P, cfg):
     R.inst("R12.3", "collect-callers", got <= expected and got, "callers of collect: %s (allowed: %s)" % (sorted(got), sorted(expected)), cfg=cfg)
 
     check_wrappers(R, F, P, cfg, "R12.5")
+    tracing_guards(R, F, P, cfg)
 
     # ---- R12.4 try_unwrap refusal paths are effect free --------------------------------------
     R.doc("R12.4", "every path of Cc::try_unwrap on which a phase flag read is true returns Err(self) with no mutator executed; finalize_again's flag write is dominated by all three flags being false")
@@ -297,3 +298,40 @@ def find_env(e, depth=0, want_root=None, P=None):
         if r is not None:
             return r
     return None
+
+
+def tracing_guards(R, F, P, cfg):
+    """R12.6: the debug-build guards of the pointer API ("Cannot <op> while tracing!") fire exactly in the tracing phase: each such
+    panic is reached only under `is_tracing() == true` of the thread's state - not under another flag (a guard on is_dropping would
+    make Deref panic inside every destructor the collector runs and stay silent while tracing)."""
+    R.doc("R12.6", "every panic whose message says `while tracing` is dominated by the true edge of State::is_tracing() (directly or through state(|s| s.is_tracing()))")
+    k = 0
+    for f in F.fns.values():
+        if f.npath.startswith("tests::") or "::tests::" in f.npath:
+            continue
+        for bi, b in enumerate(f.blocks):
+            t = b["term"]
+            if t["k"] != "call":
+                continue
+            msg = [a.get("text", "") for a in t["args"] if a["k"] == "const" and "while tracing" in str(a.get("text", ""))]
+            if not msg:
+                continue
+            rootf = site_root(P, f)
+            S = Super(P, rootf, opaque=default_opaque(F) - {rootf.npath})
+            for n in [y for y in S.nodes if y.ctx.fn is f and y.bb == bi]:
+                k += 1
+                lits = S.literals_at(n, exclude=("ui", "u"))
+                ok = False
+                for a, tr in lits:
+                    if a[0] != "bool" or tr is not True:
+                        continue
+                    e = strip(a[1])
+                    if isinstance(e, tuple) and e and e[0] == "call" and e[1] == ST + "is_tracing":
+                        ok = True
+                    if isinstance(e, tuple) and e and e[0] == "ret" and e[1] in ("state::state", "state::try_state") and e[2]:
+                        v = tables.closure_value(S, e[2][0])
+                        if v is not None and strip(v)[0] == "call" and strip(v)[1] == ST + "is_tracing":
+                            ok = True
+                R.inst("R12.6", "tracing-guard:%s" % rootf.npath, ok, "%s in %s is reached under {%s}; required State::is_tracing() == true" % (msg[0][:60], rootf.npath, lits_str(lits)[:200]), where=n.where(), cfg=cfg)
+    if F.debug:
+        R.floor("R12.6", cfg, 4, k)
